@@ -5,8 +5,10 @@ import (
 	"encoding/json"
 	"fmt"
 	"net/url"
+	"strings"
 	"sync"
 	"testing"
+	"time"
 
 	"github.com/ory/keto/ketoapi"
 	rts "github.com/ory/keto/proto/ory/keto/relation_tuples/v1alpha2"
@@ -24,29 +26,35 @@ type concIn struct {
 }
 
 type concReq struct {
-	kind  string
-	q     *ketoapi.RelationTuple
-	depth int // max-depth of the request (0 = default)
+	kind    string
+	q       *ketoapi.RelationTuple
+	depth   int           // max-depth of the request (0 = default)
+	timeout time.Duration // > 0: the request's context ends after this time (a client that gives up)
 }
 
 func (e *storeEnv) concDo(r concReq) string {
 	defer func() { recover() }()
-	ctx := context.Background()
+	ctx := e.ctx("A")
+	if r.timeout > 0 {
+		var cancel context.CancelFunc
+		ctx, cancel = context.WithTimeout(ctx, r.timeout)
+		defer cancel()
+	}
 	switch r.kind {
 	case "rest_check":
 		qs := r.q.ToURLQuery()
 		if r.depth > 0 {
 			qs.Set("max-depth", fmt.Sprint(r.depth))
 		}
-		code, body := e.do("A", e.rr, "GET", "/relation-tuples/check/openapi?"+qs.Encode(), nil)
+		code, body := e.doCtx(ctx, e.rr, "GET", "/relation-tuples/check/openapi?"+qs.Encode(), nil)
 		return fmt.Sprintf("%d %s", code, body)
 	case "rest_batch":
 		b, _ := json.Marshal(map[string]any{"tuples": []*ketoapi.RelationTuple{r.q, r.q}})
-		code, body := e.do("A", e.rr, "POST", "/relation-tuples/batch/check", b)
+		code, body := e.doCtx(ctx, e.rr, "POST", "/relation-tuples/batch/check", b)
 		return fmt.Sprintf("%d %s", code, body)
 	case "rest_expand":
 		q := url.Values{"namespace": {r.q.Namespace}, "object": {r.q.Object}, "relation": {r.q.Relation}, "max-depth": {"4"}}
-		code, body := e.do("A", e.rr, "GET", "/relation-tuples/expand?"+q.Encode(), nil)
+		code, body := e.doCtx(ctx, e.rr, "GET", "/relation-tuples/expand?"+q.Encode(), nil)
 		return fmt.Sprintf("%d %s", code, body)
 	case "rest_list":
 		q := url.Values{"namespace": {r.q.Namespace}, "page_size": {"3"}}
@@ -64,6 +72,21 @@ func (e *storeEnv) concDo(r concReq) string {
 			}
 			q.Set("page_token", resp.NextPageToken)
 		}
+	case "rest_put":
+		b, _ := json.Marshal(r.q)
+		code, _ := e.do("A", e.wr, "PUT", "/admin/relation-tuples", b)
+		return fmt.Sprint(code)
+	case "rest_patch":
+		b, _ := json.Marshal([]map[string]any{{"action": "insert", "relation_tuple": r.q}, {"action": "delete", "relation_tuple": r.q}})
+		code, _ := e.do("A", e.wr, "PATCH", "/admin/relation-tuples", b)
+		return fmt.Sprint(code)
+	case "rest_delete":
+		code, _ := e.do("A", e.wr, "DELETE", "/admin/relation-tuples?"+r.q.ToURLQuery().Encode(), nil)
+		return fmt.Sprint(code)
+	case "grpc_transact":
+		_, err := e.rt.TransactRelationTuples(ctx, &rts.TransactRelationTuplesRequest{RelationTupleDeltas: []*rts.RelationTupleDelta{
+			{Action: rts.RelationTupleDelta_ACTION_INSERT, RelationTuple: r.q.ToProto()}}})
+		return fmt.Sprint(err)
 	case "grpc_check":
 		resp, err := e.ch.Check(ctx, &rts.CheckRequest{Tuple: r.q.ToProto(), MaxDepth: int32(r.depth)})
 		if err != nil {
@@ -93,11 +116,28 @@ func famConc(t *testing.T) {
 	defer out.close()
 	si, sn := shard()
 	kinds := []string{"rest_check", "rest_batch", "rest_expand", "rest_list", "grpc_check", "grpc_list"}
+	// reference answers of the cancel rounds, computed before any request of this process was abandoned
+	refs := map[int][]string{}
+	for round := 0; round < in.Rounds; round++ {
+		if round%sn != si || round%3 != 2 {
+			continue
+		}
+		t.Run(fmt.Sprintf("ref%d", round), func(t *testing.T) {
+			e := concRegistry(t, &in, in.States[round%len(in.States)])
+			for _, r := range cancelReqs(&in, round) {
+				r.timeout = 0
+				refs[round] = append(refs[round], e.concDo(r))
+			}
+		})
+	}
 	for round := 0; round < in.Rounds; round++ {
 		if round%sn != si {
 			continue
 		}
 		S := in.States[round%len(in.States)]
+		if round%3 == 2 {
+			t.Run(fmt.Sprintf("c%d", round), func(t *testing.T) { cancelRound(t, &in, round, S, refs[round], out) })
+		}
 		t.Run(fmt.Sprintf("r%d", round), func(t *testing.T) {
 			reg := newRegistry(t, regOpts{opl: in.Def.Cfg.opl(), gdepth: 8})
 			var stored []*ketoapi.RelationTuple
@@ -158,7 +198,123 @@ func famConc(t *testing.T) {
 				"visited_sets_concurrent": len(concSets), "visited_sets_alone": len(aloneSets),
 				"visited_same": fmt.Sprint(concSets) == fmt.Sprint(aloneSets)})
 		})
+		if round%2 == 0 {
+			t.Run(fmt.Sprintf("m%d", round), func(t *testing.T) { mixedRound(t, &in, round, S, out) })
+		}
 	}
+}
+
+// cancelRound: half of the requests belong to clients that give up after a short
+// time, the others run to completion next to them. The reference answers were
+// computed at process start, before any request was ever abandoned. A request
+// that ran to completion, and every request of a sequential pass afterwards,
+// must answer like the reference; an abandoned request may fail, but if it
+// answers it must answer like the reference too.
+func cancelReqs(in *concIn, round int) []concReq {
+	kinds := []string{"rest_check", "grpc_check", "rest_batch", "rest_expand", "grpc_check", "rest_check"}
+	var reqs []concReq
+	for i := 0; i < in.Par; i++ {
+		rq := concReq{kind: kinds[(i+round)%len(kinds)], q: in.Queries[(i*5+round)%len(in.Queries)].api()}
+		if i%2 == 1 {
+			rq.timeout = time.Duration(150*(1+(i*7+round)%24)) * time.Microsecond
+		}
+		reqs = append(reqs, rq)
+	}
+	return reqs
+}
+
+func concRegistry(t *testing.T, in *concIn, S []int) *storeEnv {
+	reg := newRegistry(t, regOpts{opl: in.Def.Cfg.opl(), gdepth: 8})
+	var stored []*ketoapi.RelationTuple
+	for _, i := range S {
+		stored = append(stored, in.Def.U[i-1].api())
+	}
+	writeOrderedRaw(t, reg, stored)
+	return envFor(t, reg)
+}
+
+func failedReply(s string) bool {
+	// (a batch check answers 200 and carries the error per entry)
+	return strings.HasPrefix(s, "err ") || (len(s) >= 3 && s[0] >= '0' && s[0] <= '9' && !strings.HasPrefix(s, "200")) ||
+		strings.Contains(s, "context deadline exceeded") || strings.Contains(s, "context canceled")
+}
+
+func cancelRound(t *testing.T, in *concIn, round int, S []int, ref []string, out *ndWriter) {
+	e := concRegistry(t, in, S)
+	reqs := cancelReqs(in, round)
+	results := make([]string, len(reqs))
+	var wg sync.WaitGroup
+	start := make(chan struct{})
+	for i := range reqs {
+		wg.Add(1)
+		go func(i int) {
+			defer wg.Done()
+			<-start
+			results[i] = e.concDo(reqs[i])
+		}(i)
+	}
+	close(start)
+	wg.Wait()
+	waitNoKetoGoroutines(2e9)
+	var diffs []map[string]any
+	gaveUp := 0
+	for i := range reqs {
+		if reqs[i].timeout > 0 && failedReply(results[i]) {
+			gaveUp++
+			continue
+		}
+		if results[i] != ref[i] {
+			diffs = append(diffs, map[string]any{"kind": reqs[i].kind, "query": reqs[i].q.String(), "abandoned_client": reqs[i].timeout > 0,
+				"concurrent": trunc(results[i], 400), "alone": trunc(ref[i], 400), "phase": "next to abandoned requests"})
+		}
+	}
+	// afterwards, one by one, without any deadline
+	for i := range reqs {
+		r := reqs[i]
+		r.timeout = 0
+		if got := e.concDo(r); got != ref[i] {
+			diffs = append(diffs, map[string]any{"kind": r.kind, "query": r.q.String(), "concurrent": trunc(got, 400), "alone": trunc(ref[i], 400),
+				"phase": "alone, after requests were abandoned"})
+		}
+	}
+	out.write(map[string]any{"cancel_round": round, "requests": 2 * len(reqs), "abandoned": gaveUp, "diffs": diffs})
+}
+
+// mixedRound: reads and writes released together against a registry that has
+// served nothing yet. Nothing is compared (the data changes); the round exists
+// for the race detector and for crashes.
+func mixedRound(t *testing.T, in *concIn, round int, S []int, out *ndWriter) {
+	reg := newRegistry(t, regOpts{opl: in.Def.Cfg.opl(), gdepth: 8})
+	var stored []*ketoapi.RelationTuple
+	for _, i := range S {
+		stored = append(stored, in.Def.U[i-1].api())
+	}
+	writeOrderedRaw(t, reg, stored)
+	e := envFor(t, reg)
+	reads := []string{"rest_check", "rest_batch", "rest_expand", "rest_list", "grpc_check", "grpc_list"}
+	writes := []string{"rest_put", "grpc_transact", "rest_patch", "rest_delete"}
+	var reqs []concReq
+	for i := 0; i < in.Par; i++ {
+		if i%3 == 0 {
+			reqs = append(reqs, concReq{kind: writes[(i/3+round)%len(writes)], q: in.Def.U[(i+round)%len(in.Def.U)].api()})
+		} else {
+			reqs = append(reqs, concReq{kind: reads[(i+round)%len(reads)], q: in.Queries[(i*7+round)%len(in.Queries)].api()})
+		}
+	}
+	var wg sync.WaitGroup
+	start := make(chan struct{})
+	for i := range reqs {
+		wg.Add(1)
+		go func(i int) {
+			defer wg.Done()
+			<-start
+			e.concDo(reqs[i])
+		}(i)
+	}
+	close(start)
+	wg.Wait()
+	waitNoKetoGoroutines(2e9)
+	out.write(map[string]any{"mixed": round, "requests": len(reqs)})
 }
 
 func trunc(s string, n int) string {
